@@ -26,6 +26,9 @@ fn main() {
     let known = KnownFindings::load(&verif_dir);
 
     match args[0].as_str() {
+        "c19-child" => {
+            verif_harness::props::c19::child_main(args.get(1).map(|s| s.as_str()).unwrap_or("{}"));
+        }
         "list" => {
             for id in props::all_ids() {
                 println!("{id}");
